@@ -350,7 +350,12 @@ func c16(w *core.World, r *core.Report) {
 		r.Check(wv == "", "NO-SLOT-POLL", core.Site(reg, "does not wait"), w.Pos(reg.Pos()), "RegisterTransaction is called with the datastore lock held; it must answer at once, but it waits: "+wv)
 	}
 
-	// ---- LOCK-ORDER
+	// ---- LOCK-ORDER (shared with C06)
+	ruleLockOrder(w, r, lw)
+}
+
+// ruleLockOrder (C16, C06): no lock-order cycle and no re-acquisition of a held mutex among the transaction locks.
+func ruleLockOrder(w *core.World, r *core.Report, lw *core.LockWorld) {
 	r.Rule("LOCK-ORDER", 1, "the class-level lock-order graph (M acquired, directly or through synchronous calls, while L is held) over dmutex, tmMutex, doneMutex and the server/datastore maps' mutexes is acyclic; a mutex is not re-acquired by a synchronous callee while held (self-deadlock).")
 	edges := lw.LockOrderEdges()
 	scopeClasses := map[string]bool{}
